@@ -7,13 +7,13 @@ ROOT = os.path.dirname(os.path.dirname(os.path.abspath(__file__)))
 
 # property id -> (technique, level text, level note, DESIGN section)
 P = {
- "C01": ("proptest generation + exhaustive sweeps (word x position, all 2048 final words for every count 0..40) against a bit-string BIP-39 reference; libFuzzer in thorough",
+ "C01": ("proptest generation + exhaustive sweeps (word x position, all 2048 final words for every count 0..40) against a bit-string BIP-39 reference, through from_phrase, FromStr and a CLI sample (--mnemonic=/MNEMONIC); libFuzzer in thorough",
          "Exploration: accept <=> reference-valid on ~0.5M phrases per quick run incl. the exhaustive word x position table and full final-word sweeps for every word count; canonical print/length/re-parse for every accepted phrase. Held on everything generated; the sweeps named exhaustive are complete.",
-         "Trusts sha2 and the pinned copy of the English word list (sha256 checked); non-ASCII white space and case variants of list words are unspecified and only checked for no panic."),
+         "Trusts sha2 and the pinned copy of the English word list (sha256 checked); non-ASCII white space is unspecified and only checked for no panic; letter-case variants of list words are judged as unknown words (the list is lower case; 'the same words' and parse/print inversion exclude folding)."),
  "C10": ("exhaustive length sweep 0..1100 + powers of ten +-1 + proptest byte strings against an EIP-191 reference (sha3 Keccak, own decimal loop)",
          "Exploration: digest equals the reference for every length 0..1100, all first-byte values, 10^k-1..10^k+1 up to 10^5 (10^7 thorough) and random/non-UTF-8 contents, through all three carriers.",
          "Trusts sha3::Keccak256."),
- "C02": ("proptest over mnemonics x Unicode passphrase classes against a written-out PBKDF2 reference; hand-written NFKD pair table (788 pairs, independent of unicode-normalization) and layout metamorphism",
+ "C02": ("proptest over mnemonics x Unicode passphrase classes against a written-out PBKDF2 reference; hand-written NFKD pair table (788 pairs, independent of unicode-normalization), layout metamorphism, call histories on one thread (independence from earlier computations) and a CLI sample",
          "Exploration: seed equals PBKDF2-HMAC-SHA512(canonical phrase, 'mnemonic'+NFKD(passphrase)) on every generated (mnemonic, passphrase); every pair of the hand-written NFKD table gives equal seeds equal to the reference over the hand-decomposed bytes; look-alike non-equivalent pairs give different seeds; two layouts give one seed.",
          "Trusts hmac/sha2; unicode-normalization is used as a primitive for generated passphrases and is cross-checked by the hand-written table."),
  "C03": ("proptest over (seed, path) against BIP-32 written from the BIP on an independent secp256k1",
@@ -31,13 +31,13 @@ P = {
  "C07": ("exhaustive calldata-length / integer-width / list-size sweeps through the public API with a strict canonical RLP decoder; hook sweep of the length-header function over every length below 2^21 (2^26 thorough)",
          "Exploration with exhaustive parts: every calldata length 0..1100, every single byte, every integer width 0..32 in every field, access-list payloads around each boundary decode strictly to the original; header function equals the reference for every length in the swept range.",
          "Strict decoder is the canonicity oracle (unit-tested in the harness)."),
- "C08": ("tape-decoded generation of type graphs + conforming values against an AST-based EIP-712 reference; hook: encodeType string equality and exhaustive member-type grammar sweep",
+ "C08": ("tape-decoded generation of type graphs + conforming values against an AST-based EIP-712 reference; hook: encodeType string equality and exhaustive member-type grammar sweep; the same documents through the executable (hash/sign typeddata)",
          "Exploration: domain separator, message hash and digest equal the reference on every generated document (shared/repeated/diamond/recursive dependencies, 3-dimensional arrays, all 100 atoms); encodeType strings equal; 15600-string grammar sweep is the identity.",
          "ASCII identifiers only; sha3 Keccak."),
  "C09": ("mutation of well-typed documents at a generated tree position + exhaustive width x boundary x spelling grid + acceptance controls + CLI sample",
          "Exploration: every mutated (non-conforming) document is refused without panic; in-range boundary controls are accepted and hash to the reference; grid over 32 widths x {uint,int} x boundaries x spellings is exhaustive; sign/hash typeddata fail with empty stdout on a sample.",
          "Float literals f64 cannot carry exactly are excluded (known finding under C13)."),
- "C13": ("proptest over field x spelling (well-formed / malformed / exact-or-refuse literal / unspecified) against the reference encoding and an arbitrary-precision JSON-number oracle",
+ "C13": ("proptest over field x spelling (well-formed / malformed / exact-or-refuse literal / unspecified) against the reference encoding and an arbitrary-precision JSON-number oracle, in-process and through `hash transaction` (file and stdin)",
          "Exploration: all spellings of an integer give the reference encoding; every malformed spelling is refused; literals are exact or refused (one open known finding: json-float-literal-rounded); byte fields/addresses/storage keys strict.",
          "Rust's f64 parser is used only inside the known-finding predicate."),
  "C20": ("exhaustive truth table over domain member lists (326 orderings, 3905 sequences, type substitutions, foreign fields) + generated mixtures",
